@@ -295,6 +295,10 @@ pub struct OracleCfg {
     /// the players of a stopped node on every frame, and identical states
     #[serde(default)]
     pub survivor_agreement: bool,
+    /// C18: a spectator that stopped polling must have been cut loose by its host once more
+    /// than 128 inputs are unacknowledged, and the host must keep running
+    #[serde(default)]
+    pub silent_spectators_cut: bool,
     /// two healthy sessions that merely poll must never see NetworkInterrupted
     #[serde(default)]
     pub no_interrupted_events: bool,
@@ -321,6 +325,7 @@ impl Default for OracleCfg {
             spectator_stream: true,
             lifecycle: true,
             survivor_agreement: false,
+            silent_spectators_cut: false,
             no_interrupted_events: false,
             lifecycle_timing: false,
         }
